@@ -723,7 +723,9 @@ func genOp(t *rapid.T) Op {
 // pinned at the clock by AddShare / reactivation, so nothing is signable before the clock moved on).
 func genChunk(t *rapid.T) []Op {
 	sh := rapid.IntRange(0, 2).Draw(t, "csh")
-	epochs := func() Op { return Op{Op: "clock", N: rapid.SampledFrom([]uint64{32, 32, 33, 40, 64, 70}).Draw(t, "cn")} }
+	epochs := func() Op {
+		return Op{Op: "clock", N: rapid.SampledFrom([]uint64{32, 32, 33, 40, 64, 70}).Draw(t, "cn")}
+	}
 	slots := func() Op { return Op{Op: "clock", N: rapid.SampledFrom([]uint64{1, 1, 2, 5}).Draw(t, "cs")} }
 	att := func() Op {
 		return Op{Op: "att", Sh: sh, DS: rapid.SampledFrom([]uint64{0, 0, 1}).Draw(t, "cds"), V: rapid.IntRange(0, 2).Draw(t, "cv")}
